@@ -26,7 +26,7 @@ Extraction "extracted/model.ml"
   (* denotation / oracle *)
   (* partitions *)
   pnew pfrom_set ppush ptry_from_list plen pget pstart pend pinterval ppick_iv ppick_complement
-  pnum_classes pinterval_cover pgood_char_set classid_eqb
+  pnum_classes pinterval_cover pgood_char_set classid_eqb pmerge_opt pmerge_list
   (* loop ranges *)
   lr_validb lr_finite lr_infinite lr_opt lr_star lr_plus lr_point lr_is_finite lr_is_infinite
   lr_is_point lr_is_zero lr_is_one lr_is_all lr_start lr_eqb lr_contains lr_includes lr_add
